@@ -726,6 +726,30 @@ def _judge_copy_scen(sc, rng):
     return None
 
 
+def _judge_collision(sc):
+    """A model holding a node and a deep copy of that node (names 'a' and 'a-(copy)'): its own deep copy must still support
+    the name-keyed operations (open finding copy:renamed-name-collision)."""
+    rpy()
+    from reservoirpy.nodes import Reservoir
+    rng = core.random.Random(sc["seed"])
+    tag = "col%d_" % next(_uid)
+    a = Reservoir(3, lr=0.5, W=scen.fl(scengen.mat(rng, 3, 3, 3, 2)), Win=scen.fl(scengen.mat(rng, 3, 3, 2, 1)), bias=scen.fl(scengen.mat(rng, 3, 1, 2, 1)),
+                  name=tag + "a")
+    b = copy.deepcopy(a)
+    m = a >> b
+    X = scen.fl(scengen.rows(rng, 4, 3))
+    m.run(X.copy())
+    c = copy.deepcopy(m) if sc["how"] == "deepcopy" else pickle.loads(pickle.dumps(m))
+    names = [n.name for n in c.nodes]
+    for label, f in [("run(stateful=False)", lambda mm: mm.run(X.copy(), stateful=False)), ("run(return_states='all')", lambda mm: mm.run(X.copy(), return_states="all"))]:
+        oko, ro = _try(lambda: f(m))
+        okc, rc = _try(lambda: f(c))
+        if oko and (not okc or (isinstance(ro, dict) and len(rc) != len(ro))):
+            return _viol("copy:renamed-name-collision", "%s works on a model holding a node and a copy of it, but not on the %s copy of that model, whose nodes are named %s: %s"
+                         % (label, sc["how"], names, rc if not okc else "one entry per name"), sc, "no exception, %d entries" % (len(ro) if isinstance(ro, dict) else 1), str(rc)[:300])
+    return None
+
+
 LEGACY_GRID = [dict(bias=bz, sparse=sp, fb=fb, trained=tr, dout=do)
                for bz in (True, False) for sp in (False, True) for fb in (False, True) for tr in (True, False) for do in (1, 2)
                if not (fb and not tr)]
@@ -753,6 +777,8 @@ def _judge_legacy(sc):
 
 
 def _judge(sc):
+    if sc["family"] == "collision":
+        return _judge_collision(sc)
     if sc["family"] == "ocopy":
         return _judge_copy(sc)
     if sc["family"] == "legacy":
@@ -779,6 +805,12 @@ def oracle(ctx, scale=1):
             v = _judge_copy(sc)
         except Exception as e:  # noqa: BLE001
             v = _viol("oracle:exception", "the copy oracle itself raised %r" % e, sc)
+        if v:
+            out.append(v)
+    for how in ("deepcopy", "pickle"):
+        sc = {"family": "collision", "how": how, "seed": rng.randrange(10 ** 6), "tag": "col"}
+        n += 1
+        v = _judge_collision(sc)
         if v:
             out.append(v)
     for i in range(nleg):
